@@ -25,6 +25,7 @@ import (
 	"github.com/sassoftware/relic/v8/zzverif/bridge"
 
 	"verif/gen/pegen"
+	"verif/gen/xargen"
 	"verif/mutate"
 	"verif/relicx"
 )
@@ -137,6 +138,11 @@ func buildSeeds(dir string) *seedBuilder {
 		{file: "App1_1.0.3.0_x64.appx", ext: ".appx", layout: "zip", sign: true},
 		{file: "dummy.msi", ext: ".msi", layout: "cfb", quick: true, quickS: true, sign: true},
 		{file: "dummy.pkg", ext: ".pkg", layout: "xar", quick: true, quickS: true, sign: true},
+		// a xar that carries the CLASSIC signature only (RSA over the TOC digest, certificates in the
+		// TOC; no CMS x-signature): what older productsign wrote, and the one signed form of the format
+		// that relic never writes itself. Generated by gen/xargen, signed there with the fixture key rsaB
+		{name: "classic-signature.pkg", ext: ".pkg", layout: "xar", data: xarClassic("already-has-signature-space"), quick: true, sign: true},
+		{name: "classic-signature-sha256.pkg", ext: ".pkg", layout: "xar", data: xarClassic("already-has-signature-space-sha256")},
 		{file: "dummy.dmg", ext: ".dmg", layout: "dmg", quick: true, quickS: true, sign: true},
 		{name: "tiny.deb", ext: ".deb", layout: "ar", data: tinyDeb(dir), quick: true, quickS: true, sign: true},
 		{file: "zlib1g_1.2.8.dfsg-5_i386.deb", ext: ".deb", layout: "ar", quick: false, quickS: false, sign: true},
@@ -151,6 +157,10 @@ func buildSeeds(dir string) *seedBuilder {
 	}
 	for _, sp := range specs {
 		data := sp.data
+		if data == nil && sp.file == "" {
+			b.notes = append(b.notes, fmt.Sprintf("seed %s skipped: generator has no such shape", sp.name))
+			continue
+		}
 		if data == nil {
 			data, err = os.ReadFile(filepath.Join(P, sp.file))
 			must(err)
@@ -466,6 +476,21 @@ func pagePE(machine uint16) []byte {
 	sp.Raw = []int{9216, 5120}
 	b, _ := pegen.Build(sp)
 	return b
+}
+
+// xarClassic: the gen/xargen shape of the given class (checked by the
+// generator's own independent reader), nil if there is none.
+func xarClassic(class string) []byte {
+	for _, sh := range xargen.Shapes(true) {
+		if sh.Class == class {
+			b, err := sh.Build()
+			if err != nil || sh.Check(b) != nil {
+				return nil
+			}
+			return b
+		}
+	}
+	return nil
 }
 
 func tinyPE() []byte {
